@@ -608,11 +608,11 @@ Theorem step_chown (s : fsys) (sv : sview) (slm : slmode) (cs : list str) (uid g
   = k_chown (follow_of slm) s sv (abs_path cs) uid gid.
 Proof.
   intros H Hp. pose proof (resolve s sv slm cs H Hp) as R. destruct Hp as (_ & _ & Hnf).
-  unfold chown_gen, k_chown, win in *. rewrite (sh_os _ _ H), (sh_admin _ _ H). cbn [ostype_eqb negb].
-  rewrite andb_false_r. cbn [orb].
+  unfold chown_gen, k_chown, win in *. rewrite (sh_os _ _ H). cbn [ostype_eqb].
   destruct (klookup s sv false (follow_of slm) (abs_path cs)) as [par kind name n|par name md| |e]; cbn [walk_rel] in R.
   - destruct R as (R1 & R2 & R3 & _). rewrite R2, R1. cbn [is_file_exists negb].
-    destruct (get (f_heap s) n) as [nd|] eqn:Hg; [|congruence]. cbn [orb negb].
+    destruct (get (f_heap s) n) as [nd|] eqn:Hg; [|congruence].
+    rewrite (chown_ok_admin _ _ _ _ (sh_admin _ _ H)). cbn [negb]. rewrite andb_false_r.
     destruct nd as [ch m|dt k i m|t m]; reflexivity.
   - destruct R as (R1 & R2 & _). rewrite R2, R1. reflexivity.
   - destruct R.
